@@ -89,6 +89,7 @@ def tooNew (F : Facts) (created cutoff : Int) : Option Bool :=
 
 /-- the versions whose objects vacuum deletes -/
 def removed (F : Facts) (g : VGraph) (cutoff : Int) (p : Nat) : Bool :=
-  !(g.children p).isEmpty && (g.children p).all fun c => !((tooNew F (g.created c) cutoff).getD true)
+  !(g.children p).isEmpty && !(F.vacuumChecksOwnAge && decide (g.created p ≥ cutoff)) &&
+  (g.children p).all fun c => !((tooNew F (g.created c) cutoff).getD true)
 
 end S3db.Vacuum
